@@ -29,7 +29,7 @@ def _warm_up():
 @contextlib.contextmanager
 def symbolic_kernels():
     """Within the block, a matrix of symbolic entries handed to `matrix._validate_matrix` is checked by the Python source
-    of the numba kernels (`_validate_matrix.py_func`, with `_check_conns.py_func` as its callee) and the concrete
+    of the numba kernels (`_validate_matrix.py_func`; every numba-compiled helper it calls, today `_check_conns`, likewise from its Python source) and the concrete
     settings arrays they index with a matrix sum are wrapped in SArr views. Concrete integer matrices still go to the
     jitted kernel. Only the module attribute `_validate_matrix` (looked up by the Python method `validate_matrix`) is
     replaced; `_check_conns` stays the numba dispatcher so that jitted code compiled meanwhile still resolves it. The
@@ -37,11 +37,16 @@ def symbolic_kernels():
     import types
     import adsg_core.optimization.assign_enc.matrix as mx
     _warm_up()
-    orig_vm, orig_cc = mx._validate_matrix, mx._check_conns
+    orig_vm = mx._validate_matrix
     vm_src = getattr(orig_vm, 'py_func', orig_vm)
-    cc_py = getattr(orig_cc, 'py_func', orig_cc)
+    # private globals in which EVERY numba-compiled function of the module is its Python source (the kernel may call
+    # helpers - today `_check_conns` - and a refactoring may add others); all of them share this dict, so nested calls
+    # resolve to the Python versions as well
     glb = dict(vm_src.__globals__)
-    glb['_check_conns'] = cc_py
+    for name_, obj_ in list(glb.items()):
+        pf_ = getattr(obj_, 'py_func', None)
+        if isinstance(pf_, types.FunctionType):
+            glb[name_] = types.FunctionType(pf_.__code__, glb, pf_.__name__, pf_.__defaults__, pf_.__closure__)
     vm_py = types.FunctionType(vm_src.__code__, glb, vm_src.__name__, vm_src.__defaults__, vm_src.__closure__)
 
     def vm(matrix, max_conn_mat, sns, tns, so, to, max_src, max_tgt):
